@@ -229,7 +229,7 @@ inductive DefaultTimes
   deriving DecidableEq, Repr, Inhabited
 
 /-- `EmulationConfig.is_evaluation_time` (as intended: the comparison with `"Full"` is a
-plain test, see finding F10 for what numpy makes of it). -/
+plain string test — what the tree does since the repair of finding F10). -/
 def isEvaluationTime (dflt : DefaultTimes) (t tol : Rat) : Bool :=
   match dflt with
   | .full => decide (0 ≤ t) && decide (t ≤ 1)
@@ -270,8 +270,9 @@ def linspaceInt (last m : Nat) : List Nat :=
 `m = int(sampling_rate * T)` is computed by the caller. -/
 def samplingIndices (T m : Nat) : List Nat := linspaceInt (T - 1) m
 
-/-- `QutipConfig._get_legacy_evaluation_times`: `none` = `"Full"`, else times in µs. -/
-def legacyEvalTimes (dflt : DefaultTimes) (extras : List Rat) (T m : Nat) : Option (List Rat) :=
+/-- `QutipConfig._get_legacy_evaluation_times` before the final clipping: `none` = `"Full"`, else
+`rel · T · 10⁻³` (µs). -/
+def legacyEvalTimesRaw (dflt : DefaultTimes) (extras : List Rat) (T m : Nat) : Option (List Rat) :=
   let scale : Rat := (T : Rat) / 1000
   if extras.isEmpty then
     match dflt with
@@ -282,6 +283,14 @@ def legacyEvalTimes (dflt : DefaultTimes) (extras : List Rat) (T m : Nat) : Opti
       | .full => (samplingIndices T m).map fun (i : Nat) => (i : Rat) / (T : Rat)
       | .times l => l
     some ((union1d rel extras).map (· * scale))
+
+/-- `np.minimum(x, bound)`. -/
+def clipTo (bound x : Rat) : Rat := if x ≤ bound then x else bound
+
+/-- `QutipConfig._get_legacy_evaluation_times`: the converted times are clipped to the duration
+`T / 1000` (repair of finding F30: in float64 `1.0 · T · 10⁻³` can exceed `T / 1000`). -/
+def legacyEvalTimes (dflt : DefaultTimes) (extras : List Rat) (T m : Nat) : Option (List Rat) :=
+  (legacyEvalTimesRaw dflt extras T m).map fun l => l.map (clipTo ((T : Rat) / 1000))
 
 /-- `QutipEmulator.set_evaluation_times` for a list: range check, then union with the
 end points.  `none` = `ValueError`. -/
@@ -412,7 +421,7 @@ def slotOps (d n : Nat) (t : TensorOp) : List Mat :=
 
 /-- `sum(c * t for c, t in zip(coeffs, tensor_ops))`. -/
 def fromRepr (d n : Nat) : FullOp → Mat
-  | [] => Mat.zero (d ^ n) (d ^ n)     -- the empty sum (the code raises here, see findings)
+  | [] => Mat.zero (d ^ n) (d ^ n)     -- `zero_op`, the start value of the sum (repair of F29)
   | (z, t) :: rest => Mat.add (Mat.smul z (Mat.kronList (slotOps d n t))) (fromRepr d n rest)
 
 /-- The documented entry-wise meaning: `⟨σ|O|τ⟩ = Σ_k c_k Π_i ⟨σᵢ|o_{k,i}|τᵢ⟩`. -/
@@ -470,13 +479,23 @@ def applyDM (H rho : Mat) : Mat := Mat.mul (Mat.mul H rho) (Mat.dagger H)
 /-- `QutipState.overlap` for two density matrices: `Tr(A† B)`. -/
 def overlapDM (A B : Mat) : CQ := Mat.trace (Mat.mul (Mat.dagger A) B)
 
-/-- What `EnergySecondMoment.apply` computes on a density matrix **in this tree**, squared:
-`h = H ρ H†; sqrt(overlap(h, h))` → `Tr((HρH†)†(HρH†))`. -/
-def secondMomentCodeSqDM (H rho : Mat) : CQ := overlapDM (applyDM H rho) (applyDM H rho)
+/-- `EnergySecondMoment.apply` on a density matrix: `h = H ρ H†`, `identity.expect(h)` = `Tr[1·HρH†]`. -/
+def secondMomentCodeDM (H rho : Mat) : CQ := expectDM (Mat.ident H.r) (applyDM H rho)
 
-/-- The subtrahend of `EnergyVariance.apply` on a density matrix in this tree:
+/-- `EnergyVariance.apply`: `identity.expect(h_state) - hamiltonian.expect(state) ** 2`. -/
+def varianceCodeDM (H rho : Mat) : CQ :=
+  secondMomentCodeDM H rho - energyDM H rho * energyDM H rho
+
+/-- `H† = H` on the `n × n` block. -/
+def IsHermitian (H : Mat) (n : Nat) : Prop := ∀ i j, i < n → j < n → (H.f j i).conj = H.f i j
+
+/-- What `EnergySecondMoment.apply` computed **before the repair of finding F25**, squared:
+`h = H ρ H†; sqrt(overlap(h, h))` → `Tr((HρH†)†(HρH†))`. -/
+def secondMomentOldSqDM (H rho : Mat) : CQ := overlapDM (applyDM H rho) (applyDM H rho)
+
+/-- The subtrahend of `EnergyVariance.apply` before the repair of finding F26:
 `state.overlap(h_state) = Tr(ρ† HρH†)` (the definition wants `Tr(ρH)²`). -/
-def varSubtrahendCodeDM (H rho : Mat) : CQ := overlapDM rho (applyDM H rho)
+def varSubtrahendOldDM (H rho : Mat) : CQ := overlapDM rho (applyDM H rho)
 
 end Measure
 end Pulser
